@@ -238,11 +238,14 @@ Proof.
     destruct (scan_string_loop f buf pos (S (S i)) (c2 :: c :: acc)); cbn in *; auto.
     destruct Hr as (Ht & Hb & Hi & _ & Hl).
     split; [exact Ht|]. split; [exact Hb|]. split; [lia|]. split; [intros _; lia|lia].
-  - assert (Hr : loop_tok_ok buf STRING pos (S i) true
-                   (scan_string_loop f buf pos (S i) (c :: acc))) by (apply IH; lia).
-    destruct (scan_string_loop f buf pos (S i) (c :: acc)); cbn in *; auto.
-    destruct Hr as (Ht & Hb & Hi & _ & Hl).
-    split; [exact Ht|]. split; [exact Hb|]. split; [lia|]. split; [intros _; lia|lia].
+  - assert (Hstep : forall acc', loop_tok_ok buf STRING pos i true (scan_string_loop f buf pos (S i) acc')).
+    { intros acc'.
+      assert (Hr : loop_tok_ok buf STRING pos (S i) true
+                     (scan_string_loop f buf pos (S i) acc')) by (apply IH; lia).
+      destruct (scan_string_loop f buf pos (S i) acc'); cbn in *; auto.
+      destruct Hr as (Ht & Hb & Hi & _ & Hl).
+      split; [exact Ht|]. split; [exact Hb|]. split; [lia|]. split; [intros _; lia|lia]. }
+    destruct (c =? 10); apply Hstep.
 Qed.
 
 Lemma scan_raw_loop_ok : forall fuel buf pos i acc,
